@@ -291,6 +291,64 @@ func TestC11(t *testing.T) {
 		r.Exhaustive("positions", !r.Replaying())
 	}
 
+	// the state the value's own bto/bcc are in must not matter: unset, empty but not nil (what an earlier Clean() leaves behind), one of
+	// each, populated; and the sequence Clean(), attach an embedded object with private recipients, Clean() again
+	if r.WantLayer("states", true) {
+		total, done := 0, 0
+		states := []string{"nil/nil", "empty/empty", "empty/nil", "nil/empty", "populated/empty", "cleaned-before"}
+		for _, gt := range c11Types {
+			walked := append([]string{}, c11Walked...)
+			if gt == "Activity" {
+				walked = append(walked, c11Activity...)
+			}
+			for _, pos := range walked {
+				for _, st := range states {
+					c := &vocab.Counter{}
+					top, tv := mkNode(c, gt)
+					inner, _ := mkNode(c, "Object")
+					switch st {
+					case "nil/nil":
+						tv.FieldByName("Bto").Set(reflect.Zero(tv.FieldByName("Bto").Type()))
+						tv.FieldByName("BCC").Set(reflect.Zero(tv.FieldByName("BCC").Type()))
+					case "empty/empty":
+						tv.FieldByName("Bto").Set(reflect.ValueOf(ap.ItemCollection{}))
+						tv.FieldByName("BCC").Set(reflect.ValueOf(ap.ItemCollection{}))
+					case "empty/nil":
+						tv.FieldByName("Bto").Set(reflect.ValueOf(ap.ItemCollection{}))
+						tv.FieldByName("BCC").Set(reflect.Zero(tv.FieldByName("BCC").Type()))
+					case "nil/empty":
+						tv.FieldByName("Bto").Set(reflect.Zero(tv.FieldByName("Bto").Type()))
+						tv.FieldByName("BCC").Set(reflect.ValueOf(ap.ItemCollection{}))
+					case "populated/empty":
+						tv.FieldByName("BCC").Set(reflect.ValueOf(ap.ItemCollection{}))
+					case "cleaned-before":
+						if pi := evSafe(func() { top.(interface{ Clean() }).Clean() }); pi != nil {
+							continue
+						}
+					}
+					if !setPos(tv, pos, inner, false) {
+						continue
+					}
+					total++
+					cell := fmt.Sprintf("%s.%s own-private=%s", gt, pos, st)
+					if !r.WantCell(cell) {
+						continue
+					}
+					done++
+					dump := vocab.Dump(top)
+					ds, planted, _ := c11Check(top)
+					r.Case(cell+dump, planted > 0, "states "+st)
+					if done%97 == 0 {
+						r.Sample(cell, map[string]interface{}{"layer": "states", "cell": cell, "value": dump})
+					}
+					reportAll(r, "states", cell, ds, dump)
+				}
+			}
+		}
+		r.Cells(total, done)
+		r.Exhaustive("states", !r.Replaying())
+	}
+
 	// the same item mentioned at two walked positions (a self-Delete: the actor is also the object; an icon that is also the
 	// image): once as a bare IRI or as a clean embedded copy, once embedded with private recipients - both must end up clean
 	if r.WantLayer("same-id", true) {
